@@ -15,9 +15,13 @@
 #elif RES == 1
 #include "C10_eval_row.h"
 #define KN(n) n##_row
-#else
+#elif RES == 2
 #include "C10_eval_col.h"
 #define KN(n) n##_col
+#else               /* RES == 3: default resolver, operand capacity 4 (extents <= 2) */
+#include "C10_eval_old4.h"
+#define KN(n) n##_old4
+#define CAP 4
 #endif
 #include "C10_dom.h"
 #define CELLS 16
@@ -54,7 +58,7 @@ static void check(int r, const u64* ex, u64 nd, const u64* ls, u64 ld, u32 lv, c
   int r = KN(k_out_##NAME)(ARGS, pre); check(r, ex, nd, ls, ld, lv, es, ed, ev); REACHED(); }
 #define CL(NAME)  void h_cl_##NAME(void){ LOCALS; u64 nd = dom_##NAME(p, ex, n0, n1, &maxidx); dom_index(idx, ex, nd, maxidx); \
   int r = KN(k_cl_##NAME)(ARGS); check(r, ex, nd, ls, ld, lv, es, ed, ev); REACHED(); }
-#if RES != 0
+#if RES == 1 || RES == 2
 FRONT(transpose) FRONT(flip)
 #endif
 EV(transpose) EV(transpose_none) EV(reshape_b) EV(reshape) EV(flatten) EV(flip) EV(slice) EV(tile) EV(pad) EV(invert) EV(add_scalar) EV(sum)
@@ -62,7 +66,7 @@ EV(flip_transpose) EV(reshape_flip) EV(sum_transpose) EV(add_scalar_transpose) E
 EV(slice_transpose) EV(transpose_slice) EV(sum_add_scalar)
 EV(invert_flip_reshape) EV(transpose_flip_slice) EV(reshape_flip_pad)
 OUTP(transpose) OUTP(flip) OUTP(invert) OUTP(flip_transpose)
-#if RES != 0
+#if RES == 1 || RES == 2
 OUTP(sum)
 #endif
 CL(flip_transpose) CL(invert_flip) CL(slice_transpose) CL(sum_transpose) CL(transpose_add_scalar)
